@@ -656,6 +656,7 @@ package graphql
 // C14 (the one-shot HTTP endpoint): the root type is chosen by the kind of the operation, and the query is validated against
 // the very type it is then executed against
 //@ func httpHandler.ServeHTTP
+//@   call NewRerunner assume ret0 != nil          // NewRerunner returns the rerunner it allocated
 //@   keeps httpHandler, Schema                 // decoding and parsing the request do not rewrite the handler or its schema
 //@   call PrepareQuery assert arg1 == schema && arg2 == query.SelectionSet && (query.Kind == "mutation" ==> schema == h.schema.Mutation) && (query.Kind != "mutation" ==> schema == h.schema.Query)
 //@ func httpHandler.ServeHTTP$2$1
